@@ -429,6 +429,11 @@ class TermEval:
             return lv / rv
         if isinstance(op, ast.Pow):
             return lv**rv
+        if isinstance(op, (ast.Mod, ast.FloorDiv)) and lv.is_const() and rv.is_const():
+            # index arithmetic over integer constants (`masses[(i + shift) % n]`)
+            a, b = lv.const_value(), rv.const_value()
+            if a.denominator == 1 and b.denominator == 1 and b != 0:
+                return RF.const(int(a) % int(b) if isinstance(op, ast.Mod) else int(a) // int(b))
         raise ExtractionError(f"binary operator {type(op).__name__}")
 
     def _mat_binop(self, node, lhs, rhs):
@@ -1822,6 +1827,12 @@ class TermEval:
                         for k, v in [*other.items, *[(Opaque(k), v) for k, v in kwargs.items()]]:
                             holder.items[:] = [(a, b) for a, b in holder.items if vkey(a) != vkey(k)] + [(k, v)]
                         continue
+                if call.func.attr in {"append", "extend"} and isinstance(recv, ast.Name) and isinstance(env.get(recv.id), Tup) and len(call.args) == 1 and not call.keywords:
+                    # `acc.append(x)` / `acc.extend(xs)` on a list value: in place (the Tup object is shared by every alias)
+                    holder = env[recv.id]
+                    added = self.ev(call.args[0], env, fn, depth)
+                    holder.items = [*holder.items, *([added] if call.func.attr == "append" else self._sequence(added, f"{fn.qual}: `{unparse(call)[:50]}`"))]
+                    continue
                 base = recv
                 while isinstance(base, (ast.Attribute, ast.Subscript, ast.Call)):
                     base = base.value if not isinstance(base, ast.Call) else base.func
